@@ -992,6 +992,16 @@ func callBuiltin(caller *frame, callpos token.Pos, fn *ssa.Builtin, args []value
 			return append(args[0].([]value), s.b...)
 		}
 		// append([]T, ...[]T) []T
+		if i.tree != nil {
+			dst, add := args[0].([]value), i.bulkRead(caller, args[1].([]value))
+			if len(dst)+len(add) <= cap(dst) {
+				// in place: the spare capacity may be memory other goroutines see
+				room := dst[len(dst) : len(dst)+len(add)]
+				i.bulkWrite(caller, room, add)
+				return dst[:len(dst)+len(add)]
+			}
+			return append(dst, add...)
+		}
 		return append(args[0].([]value), args[1].([]value)...)
 
 	case "copy": // copy([]T, []T) int or copy([]byte, string) int
@@ -1001,6 +1011,15 @@ func callBuiltin(caller *frame, callpos token.Pos, fn *ssa.Builtin, args []value
 			src = strBytes(s)
 		case symstr:
 			src = append([]value(nil), s.b...)
+		}
+		if i.tree != nil {
+			dst, from := args[0].([]value), src.([]value)
+			n := len(dst)
+			if len(from) < n {
+				n = len(from)
+			}
+			i.bulkWrite(caller, dst[:n], i.bulkRead(caller, from[:n]))
+			return n
 		}
 		return copy(args[0].([]value), src.([]value))
 
@@ -1561,4 +1580,27 @@ func fandbits[F floaty](x, y F) F {
 		*(*uint64)(unsafe.Pointer(&x)) &= *(*uint64)(unsafe.Pointer(&y))
 	}
 	return x
+}
+
+// bulkRead / bulkWrite: element-wise access of append and copy in a concurrent
+// harness, so that slice elements other goroutines can see take part in the
+// shared-memory detection and the race query like any other load and store.
+func (i *interpreter) bulkRead(fr *frame, src []value) []value {
+	out := make([]value, len(src))
+	for k := range src {
+		if v, done := i.tree.sharedAccess(fr, &src[k], false, nil); done {
+			out[k] = v
+		} else {
+			out[k] = src[k]
+		}
+	}
+	return out
+}
+
+func (i *interpreter) bulkWrite(fr *frame, dst, vals []value) {
+	for k := range dst {
+		if _, done := i.tree.sharedAccess(fr, &dst[k], true, vals[k]); !done {
+			dst[k] = vals[k]
+		}
+	}
 }
